@@ -33,14 +33,14 @@ Definition nak_calc_len (p : NakPdu) : res NakPdu :=
   Ok (nak_with_fd p f).
 
 (* NakPdu.__init__(pdu_conf, start_of_scope, end_of_scope, segment_requests): returns the PDU
-   and the caller's PduConfig afterwards.  The constructor writes the direction into the
-   caller's object and hands that same object to the header (no copy). *)
+   and the caller's PduConfig afterwards.  The constructor works on copy.copy(pdu_conf): the
+   direction is written into the copy, the caller's object is untouched. *)
 Definition nak_new (conf : PduConfig) (start_of_scope end_of_scope : Z) (segs : list (Z * Z))
   : res (NakPdu * PduConfig) :=
   let conf' := conf_set_dir conf DIR_TOWARDS_SENDER in
   do f <- fdir_new conf' DT_NAK 8;
   do p <- nak_calc_len {| nk_fd := f; nk_segs := segs; nk_start := 0; nk_end := 0 |};
-  Ok (nak_set_end (nak_set_start p start_of_scope) end_of_scope, conf').
+  Ok (nak_set_end (nak_set_start p start_of_scope) end_of_scope, conf).
 
 (* segment_requests setter *)
 Definition nak_set_segs (p : NakPdu) (segs : list (Z * Z)) : res NakPdu :=
@@ -106,19 +106,22 @@ Definition nak_unpack (data : bytes) : res NakPdu :=
   do p <- nak_empty;
   do f <- fdir_unpack data;
   let p := nak_with_fd p f in
-  do _ <- hdr_verify_length_and_checksum (fd_hdr f) data;
+  do packet_len <- hdr_verify_length_and_checksum (fd_hdr f) data;
   if negb (fd_type f =? DT_NAK) then Err EValue else
+  if len data >? packet_len then Err EValue else
   let current_idx := fdir_header_len f in
   let n := if negb (hdr_large_file (fd_hdr f)) then 4 else 8 in
+  let stop := if cf_crc (h_conf (fd_hdr f)) =? CRC_WITH_CRC then packet_len - 2 else packet_len in
+  if current_idx + 2 * n >? stop then Err ETooShort else
   do s <- struct_unpack (Z.to_nat n) (slice data current_idx (current_idx + n));
   let p := nak_set_start p s in
   let current_idx := current_idx + n in
   do e <- struct_unpack (Z.to_nat n) (slice data current_idx (current_idx + n));
   let p := nak_set_end p e in
   let current_idx := current_idx + n in
-  if current_idx <? len data then
-    if negb ((len data - current_idx) mod (n * 2) =? 0) then Err EValue else
-    do segs <- nak_unpack_segs (length data + 1) data current_idx (len data) n [];
+  if current_idx <? stop then
+    if negb ((stop - current_idx) mod (n * 2) =? 0) then Err EValue else
+    do segs <- nak_unpack_segs (length data + 1) data current_idx stop n [];
     nak_set_segs p segs
   else Ok p.
 
@@ -149,6 +152,5 @@ Definition nak_max_seg_reqs (max_packet_size : Z) (c : PduConfig) : res Z :=
   else Err EValue.
 
 (* What the caller's PduConfig object looks like after the constructor and any later setter
-   calls on the PDU: the header holds the caller's object itself, so it is the header's
-   configuration. *)
-Definition nak_caller_conf_after (caller : PduConfig) (p : NakPdu) : PduConfig := nk_conf p.
+   calls on the PDU: the PDU owns a copy, so it is the object the caller passed in. *)
+Definition nak_caller_conf_after (caller : PduConfig) (p : NakPdu) : PduConfig := caller.
